@@ -125,8 +125,21 @@ def _strategy():
         if draw(st.integers(0, 4)) == 0:
             # declarations tied by weak dependencies: the printed SDL has to be orderable again
             G.add_weak_family(s, draw)
+        fam_edit = None
+        if draw(st.integers(0, 3)) == 0:
+            # a structural family (gen/families.py); sometimes reached through one of its edits
+            from vp_harness.gen import families as F
+            fam = F.draw_family(draw, s['modules'])
+            s = F.add(s, fam['A'], draw)
+            if fam['B'] and draw(st.booleans()):
+                fam_edit = (fam, draw(st.sampled_from(sorted(fam['B']))))
         texts = [G.render(s)]
         how = 'direct'
+        if fam_edit is not None:
+            from vp_harness.gen import families as F
+            s = F.replace(s, fam_edit[0], fam_edit[1])
+            texts.append(G.render(s))
+            how = 'chain'
         if draw(st.integers(0, 2)) == 0:
             how = 'chain'
             for _ in range(draw(st.integers(1, 2))):
@@ -134,6 +147,8 @@ def _strategy():
                 texts.append(G.render(s))
         case = dict(how=how, texts=texts, lang=draw(st.sampled_from(['ddl', 'sdl'])),
                     session=draw(st.sampled_from(SESSION_MODULES)))
+        if fam_edit is not None:
+            case['family'] = f'family:{fam_edit[0]["name"]}:{fam_edit[1]}'
         # cross-module DDL with short names
         mods = s['modules']
         if len(mods) > 1 and draw(st.booleans()):
@@ -179,8 +194,9 @@ def _run(rec, case):
              + (['cross-module-ddl'] if case.get('extra_ddl') else [])
              + (['two-modules'] if multi_mod else []) + (['has-overloaded'] if 'overloaded' in src else []),
              sample={'lang': case['lang'], 'session': case['session'], 'source': src[:500]})
+    fam = '|' + case['family'] if case.get('family') else ''
     for sig, detail in viol[:1]:
-        rec.violation(sig, case, detail)
+        rec.violation(sig + fam, case, detail)
 
 
 def shard(rec, idx, nshards, seed, tier):
